@@ -864,6 +864,92 @@ func TestProcessBlock(t *testing.T) {
 	})
 }
 
+// TestOutOfOrder: the mutant of a child block arrives BEFORE its parent (it can only
+// be refused or parked), then the parent, then the original child.  Oracle: no
+// block whose contents do not match its header is ever on the active chain.
+func TestOutOfOrder(t *testing.T) {
+	rapid.Check(t, func(rt *rapid.T) {
+		s, err := newScenario(24)
+		if err != nil {
+			rt.Fatalf("harness: scenario: %v", err)
+		}
+		defer s.n.Close()
+		old := s.tip
+		parent, err := s.n.BuildBlock(node.BlockSpec{Parent: old, Salt: 5, MinerKey: 2})
+		if err != nil {
+			rt.Fatalf("harness: parent: %v", err)
+		}
+		s.tip = parent // the child is built on the undelivered parent
+		allowNoInputBase = false
+		c := drawCase(rt, len(s.coins), 9, false)
+		allowNoInputBase = true
+		bb, err := s.buildBase(c)
+		if err != nil {
+			rt.Fatalf("harness: base: %v", err)
+		}
+		nmut := rapid.IntRange(1, 3).Draw(rt, "nmutants")
+		var last *built
+		var lastCase blockCase
+		badDelivered := 0
+		for m := 0; m < nmut; m++ {
+			if m > 0 || len(c.Edits) == 0 {
+				c.Edits, c.Reseal, c.FlipRoot = drawEdits(rt, true)
+				if rapid.IntRange(0, 3).Draw(rt, "reseal-ooo") == 0 {
+					c.Reseal = true
+				}
+			}
+			b, err := s.applyEdits(bb, c)
+			if err != nil {
+				rt.Fatalf("harness: edits: %v", err)
+			}
+			last, lastCase = b, c
+			rend := render(c, b)
+			changed := !b.sameIDs || b.flipped
+			vk.Case("out-of-order "+b.class(), changed, []byte(fmt.Sprintf("ooo%v", rend())), rend)
+			if !changed {
+				continue
+			}
+			want := predicate(b.mut)
+			in, orphan, perr := s.n.Process(b.mut)
+			vk.Class(fmt.Sprintf("out-of-order mutant-first: orphan=%v err=%v", orphan, perr != nil))
+			if in || *s.n.Chain.BestChain.Hash != old.Hash() {
+				vk.Report(rt, "C07:ProcessBlock:block-connected-before-its-parent", fmt.Sprintf("in=%v orphan=%v err=%v", in, orphan, perr), rend())
+				return
+			}
+			if !want.ok {
+				badDelivered++
+			}
+		}
+		rend := render(lastCase, last)
+		if _, orphan, perr := s.n.Process(parent); orphan || *s.n.Chain.BestChain.Hash == old.Hash() {
+			vk.Report(rt, "C07:ProcessBlock:rejected-valid-block", fmt.Sprintf("parent refused after parked children: orphan=%v err=%v", orphan, perr), rend())
+			return
+		}
+		chain, err := s.n.ActiveChain()
+		if err != nil {
+			rt.Fatalf("harness: active chain: %v", err)
+		}
+		for _, blk := range chain {
+			if blk.Height <= old.Height {
+				continue
+			}
+			if v := predicate(blk); !v.ok {
+				vk.Report(rt, "C07:ProcessOrphans:connected-block-not-matching-header:"+v.clause,
+					fmt.Sprintf("block at height %d with %d txs is on the active chain although %s (delivered before its parent; edits %v)",
+						blk.Height, len(blk.Transactions), v.clause, last.applied), rend())
+				return
+			}
+		}
+		// the honest child is accepted (connected, or a side-chain sibling of a legitimately re-sealed variant)
+		in, orphan, perr := s.n.Process(bb.orig)
+		if perr != nil || orphan {
+			vk.Report(rt, "C07:ProcessBlock:rejected-valid-block", fmt.Sprintf("in=%v orphan=%v err=%v after %d bad mutants delivered before the parent", in, orphan, perr, badDelivered), rend())
+			return
+		}
+		vk.Class("out-of-order honest child accepted in-main=" + fmt.Sprint(in))
+	})
+}
+
 // ---------------------------------------------------------------------------
 // merkle reference vs crypto.ComputeRoot
 
